@@ -132,6 +132,23 @@ class Engine:
         )
         return list(self.sevm.run(ex))
 
+    def run_iter(self, code: bytes):
+        """like run(), but lazily: paths come out one by one as the DFS exploration produces them (parked siblings stay
+        on SEVM's worklist), so the caller can drop each Exec before the next one is activated — as run_test does"""
+        pgm = Contract(code)
+        data = ByteVec()
+        for v in self.vars:
+            data.append(BV(v))
+        msg = Message(target=self.this, caller=self.caller, origin=self.origin, value=con(0), data=data, call_scheme=EVM.CALL)
+        path = Path(mk_solver(self.base_args))
+        ex = self.sevm.mk_exec(
+            code={self.this: pgm}, storage={self.this: self.sevm.mk_storagedata()},
+            transient_storage={self.this: self.sevm.mk_storagedata()}, balance=self.balance, block=mk_block(),
+            context=CallContext(msg), pgm=pgm, path=path,
+        )
+        del path
+        yield from self.sevm.run(ex)
+
 
 def new_solving_ctx(tmpdir=None):
     d = FsPath(tmpdir or tempfile.mkdtemp(prefix="verif-solve-"))
